@@ -266,6 +266,104 @@ pub fn run(report: &Report, thorough: bool) -> Evidence {
                                         }
                                     }
                                 }
+                                // R2b: the suffixed word was typed BEFORE its base was learned (and nothing was chosen for
+                                // it then): it has no learned choice of its own, so the joined form must be preselected
+                                if wi == 0 {
+                                    for s in suffixes.iter().take(4) {
+                                        let Some(sbn) = dict.suffix.get(*s) else { continue };
+                                        let t2 = format!("{}{}", word, s);
+                                        if histgraph::fresh(&mut ctx, &files).is_err() {
+                                            continue;
+                                        }
+                                        let mut e4: Vec<Ev> = vec![];
+                                        let pre = match type_text(&mut ctx, &t2, &mut e4) {
+                                            Ok(Some(r)) => r,
+                                            _ => continue,
+                                        };
+                                        let c0 = Ev::Commit(pre.sel().min(pre.len().saturating_sub(1)));
+                                        e4.push(c0.clone());
+                                        let _ = ctx.apply(&c0);
+                                        let sh = match type_text(&mut ctx, &text, &mut e4) {
+                                            Ok(Some(r)) => r,
+                                            _ => continue,
+                                        };
+                                        if sh.items().get(i) != Some(&chosen) || sh.sel() == i {
+                                            continue;
+                                        }
+                                        e4.push(Ev::Commit(i));
+                                        let _ = ctx.apply(&Ev::Commit(i));
+                                        let r = match type_text(&mut ctx, &t2, &mut e4) {
+                                            Ok(Some(r)) => r,
+                                            _ => continue,
+                                        };
+                                        let _ = ctx.apply(&Ev::Finish);
+                                        let joined = join(inner, sbn);
+                                        if r.items().contains(&joined) {
+                                            suffix_checks.fetch_add(1, Ordering::Relaxed);
+                                            let got = r.items().get(r.sel()).cloned();
+                                            if got.as_ref() != Some(&joined) {
+                                                viol("suffix-form-not-preselected", "suffix-form-not-preselected:typed-before-base-was-learned", &e4, format!("{:?} was typed (nothing chosen) before {:?} was learned for {:?}; typed again: joined form {:?} is offered but {:?} is preselected in {:?}", t2, chosen, text, joined, got, r.items()));
+                                            }
+                                        }
+                                    }
+                                }
+                            }
+                        }
+                        // R5: re-learning — a second, different choice for the same short bare word replaces the first, in the
+                        // same context and on disk (the store may shrink)
+                        if wi == 0 && ii == 0 && word.len() <= 2 {
+                            for j in 0..n {
+                                if j == i {
+                                    continue;
+                                }
+                                if histgraph::fresh(&mut ctx, &files).is_err() {
+                                    continue;
+                                }
+                                let mut e5: Vec<Ev> = vec![];
+                                let s1 = match type_text(&mut ctx, &text, &mut e5) {
+                                    Ok(Some(r)) => r,
+                                    _ => continue,
+                                };
+                                if i >= s1.len() || s1.sel() == i {
+                                    continue;
+                                }
+                                e5.push(Ev::Commit(i));
+                                let _ = ctx.apply(&Ev::Commit(i));
+                                let s2 = match type_text(&mut ctx, &text, &mut e5) {
+                                    Ok(Some(r)) => r,
+                                    _ => continue,
+                                };
+                                if j >= s2.len() || s2.sel() == j {
+                                    let _ = ctx.apply(&Ev::Finish);
+                                    continue;
+                                }
+                                let second = s2.items()[j].clone();
+                                e5.push(Ev::Commit(j));
+                                commits.fetch_add(1, Ordering::Relaxed);
+                                let _ = ctx.apply(&Ev::Commit(j));
+                                if let Some(bytes) = file_state(&o) {
+                                    if let Err(e) = serde_json::from_slice::<BTreeMap<String, String>>(&bytes) {
+                                        viol("store-not-an-object-of-strings", "store-not-an-object-of-strings:after-relearning", &e5, format!("after re-learning the store is {:?}: {}", String::from_utf8_lossy(&bytes), e));
+                                    }
+                                }
+                                learn_recall.fetch_add(1, Ordering::Relaxed);
+                                let mut e6 = e5.clone();
+                                if let Ok(Some(r)) = type_text(&mut ctx, &text, &mut e6) {
+                                    if r.items().get(r.sel()) != Some(&second) {
+                                        viol("not-recalled", "not-recalled:same-context:relearned", &e6, format!("first {:?}, then {:?} committed for {:?}; re-typed: preselected {:?}", chosen, second, text, r.items().get(r.sel())));
+                                    }
+                                }
+                                let _ = ctx.apply(&Ev::Finish);
+                                let mut e7 = e5.clone();
+                                e7.push(Ev::Restart);
+                                if ctx.reset().is_ok() {
+                                    if let Ok(Some(r)) = type_text(&mut ctx, &text, &mut e7) {
+                                        if r.items().get(r.sel()) != Some(&second) {
+                                            viol("not-recalled", "not-recalled:after-restart:relearned", &e7, format!("first {:?}, then {:?} committed for {:?}; after a restart: preselected {:?} (store: {:?})", chosen, second, text, r.items().get(r.sel()), file_state(&o).map(|b| String::from_utf8_lossy(&b).to_string())));
+                                        }
+                                    }
+                                    let _ = ctx.apply(&Ev::Finish);
+                                }
                             }
                         }
                     }
